@@ -140,7 +140,7 @@ CHECKS.update({
              "confused), and ChangeBlock._format is verified from its AST to write header, change lines, trailer and trailing lines exactly "
              "from the stored components; Changelog._format (what str() and write_to_open_file produce) is verified from its AST to write "
              "the leading blank lines, each with its newline, then the text of every block in order with the flag passed on - the "
-             "block formatter used through an abstract contract (modular call). The parser state machine (byte-identical round trip, exposed components) is decided by a bounded "
+             "block formatter used through an abstract contract (modular call); ChangeBlock.add_trailing_line appends the line as it is and leaves the rest of the block alone. The parser state machine (byte-identical round trip, exposed components) is decided by a bounded "
              "stand-in on texts generated from the deb-changelog(5) grammar.",
         technique="contract-based deductive verification of ChangeBlock._format and Changelog._format (AST -> SMT) + regex-to-SMT language lemmas on the real patterns + bounded stand-in (grammar-generated texts)"),
  "C04-old": bounded_only("texts generated from the deb-changelog(5) grammar with known components are parsed strictly with warnings as errors; "
